@@ -14,6 +14,7 @@ EXPLANATION = (
     '(R4 also: with the path exhausted every entry without a wildcard in its key becomes a property, whatever its value.) '
     "(R2 also: the kept configurations are applied before the node's software is built.) "
     "(R4 also: every prefix level of a key path is visited - no level is skipped on a loop exit; R6) lengths used as text offsets are byte lengths, never character counts. "
+    '(R2 also: configurations are added to the kept list by include_cfg alone, which also applies them to the modules that exist.) '
     "Decides these necessary conditions only; not the iff over all configurations.")
 ASSUMPTIONS = ["serde_yml::Mapping::get / keys behave as documented"]
 
